@@ -35,6 +35,17 @@ def step (st : St) (args : List String) : St × String :=
     | none => (st, "bad-op")
   | ["group", c, g] => ({ st with state := setG (c, g) GroupRec.fresh st.state }, "ok")
   | ["delgroup", c, g] => ({ st with state := eraseG (c, g) st.state }, "ok")
+  | ["refresh", spec, stall] =>
+    let listing? : Option (List (String × List String)) :=
+      if spec == "-" then some [] else
+      (spec.splitOn ";").mapM fun e =>
+        match e.splitOn "=" with
+        | [c, gs] => some (c, if gs.isEmpty then [] else gs.splitOn ",")
+        | [c] => some (c, [])
+        | _ => none
+    match listing? with
+    | some listing => ({ st with state := refresh listing (fun _ => stall != "1") st.state }, "ok")
+    | none => (st, "bad-op")
   | ["shift", d] =>
     match parseInt? d with
     | some d => ({ st with state := shiftTimes d st.state, cumShift := st.cumShift + d }, "ok")
